@@ -157,6 +157,25 @@ pub struct Case {
     /// Arbitrary byte strings for the decoder (C12).
     #[serde(default)]
     pub blobs: Vec<Vec<u8>>,
+    /// Lock-contention program (C13).
+    #[serde(default)]
+    pub prog: Option<LockProg>,
+}
+
+#[derive(Debug, Clone, Copy, PartialEq, Eq, Hash, Serialize, Deserialize)]
+pub enum LockAct {
+    OpenLog,
+    OpenDump,
+    Drop,
+}
+
+/// Contenders `0..threads` are threads of the harness process, `threads..threads+procs` are
+/// child processes. In every round the listed contenders act simultaneously (barrier).
+#[derive(Debug, Clone, PartialEq, Eq, Hash, Serialize, Deserialize)]
+pub struct LockProg {
+    pub threads: u8,
+    pub procs: u8,
+    pub rounds: Vec<Vec<(u8, LockAct)>>,
 }
 
 impl Case {
@@ -385,7 +404,7 @@ pub fn fault_strategy(g: FaultGen) -> BoxedStrategy<Vec<FaultRule>> {
 pub fn case_strategy(p: &Profile) -> BoxedStrategy<Case> {
     let alt = if p.with_alt { cfg_strategy(p).prop_map(Some).boxed() } else { Just(None).boxed() };
     (cfg_strategy(p), vec(op_strategy(p), p.min_ops..=p.max_ops), alt, fault_strategy(p.faults), any::<u64>())
-        .prop_map(|(cfg, ops, alt, faults, sel)| Case { cfg, ops, alt, faults, sel, recs: vec![], blobs: vec![] })
+        .prop_map(|(cfg, ops, alt, faults, sel)| Case { cfg, ops, alt, faults, sel, recs: vec![], blobs: vec![], prog: None })
         .boxed()
 }
 
@@ -413,6 +432,7 @@ pub fn sample_case() -> Case {
         sel: 1,
         recs: vec![],
         blobs: vec![],
+        prog: None,
     }
 }
 
@@ -470,6 +490,35 @@ pub fn rec_strategy() -> BoxedStrategy<crate::model::Rec> {
 
 pub fn codec_case_strategy(max_recs: usize) -> BoxedStrategy<Case> {
     (vec(rec_strategy(), 1..=max_recs), vec(vec(any::<u8>(), 0..120), 0..6), any::<u64>())
-        .prop_map(|(recs, blobs, sel)| Case { cfg: CfgSpec::simple(), ops: vec![], alt: None, faults: vec![], sel, recs, blobs })
+        .prop_map(|(recs, blobs, sel)| Case { cfg: CfgSpec::simple(), ops: vec![], alt: None, faults: vec![], sel, recs, blobs, prog: None })
+        .boxed()
+}
+
+// ---------------------------------------------------------------------------------------
+// Lock programs (C13)
+
+pub fn lock_case_strategy(max_rounds: usize) -> BoxedStrategy<Case> {
+    let act = prop_oneof![5 => Just(LockAct::OpenLog), 2 => Just(LockAct::OpenDump), 3 => Just(LockAct::Drop)];
+    (1u8..=3, 1u8..=2)
+        .prop_flat_map(move |(threads, procs)| {
+            let n = threads + procs;
+            let round = vec((0..n, act.clone()), 1..=(n as usize)).prop_map(|mut v| {
+                // one action per contender and round
+                v.sort_by_key(|x| x.0);
+                v.dedup_by_key(|x| x.0);
+                v
+            });
+            (Just(threads), Just(procs), vec(round, 2..=max_rounds), any::<u64>())
+        })
+        .prop_map(|(threads, procs, rounds, sel)| Case {
+            cfg: CfgSpec::simple(),
+            ops: sample_case().ops,
+            alt: None,
+            faults: vec![],
+            sel,
+            recs: vec![],
+            blobs: vec![],
+            prog: Some(LockProg { threads, procs, rounds }),
+        })
         .boxed()
 }
